@@ -5,21 +5,23 @@ package main
 // construct that a rule MUST report; reports located in the control file never
 // count towards the verdict, but a missing one fails the check as broken.
 
+import _ "embed"
+
+//go:embed controls/webdav.go.txt
+var controlWebdav string
+
+//go:embed controls/internal.go.txt
+var controlInternal string
+
+//go:embed controls/caldav.go.txt
+var controlCaldav string
+
+//go:embed controls/carddav.go.txt
+var controlCarddav string
+
 var controlSources = map[string]string{
 	pkgWebdav:   controlWebdav,
 	pkgInternal: controlInternal,
 	pkgCaldav:   controlCaldav,
 	pkgCarddav:  controlCarddav,
 }
-
-const controlWebdav = `package webdav
-`
-
-const controlInternal = `package internal
-`
-
-const controlCaldav = `package caldav
-`
-
-const controlCarddav = `package carddav
-`
